@@ -12,7 +12,8 @@ import json, os, random, concurrent.futures
 PROP = "C06"
 
 # ------------------------------------------------------------------ alphabets (UTF-16 code units)
-A_ASCII = [0x61, 0x62, 0x41, 0x42, 0x78, 0x30, 0x31, 0x20, 0x09, 0x2d, 0x22, 0x5c, 0x0a, 0x01, 0x2e, 0x28, 0x7f, 0x00]
+A_ASCII = [0x61, 0x62, 0x41, 0x42, 0x78, 0x30, 0x31, 0x20, 0x09, 0x2d, 0x22, 0x5c, 0x0a, 0x01, 0x2e, 0x28, 0x7f, 0x00,
+           0x24, 0x24, 0x26, 0x60, 0x27, 0x3c, 0x3e]      # `$` and the GetSubstitution selectors & ` ' < >
 A_LATIN = [0xe9, 0xdf, 0xa0, 0xff, 0x80, 0xb5]
 A_BMP = [0x3a3, 0x3c3, 0x3c2, 0x130, 0x2028, 0x3000, 0xfeff, 0xfffd, 0x4e2d, 0x301, 0x1e9e, 0x17f, 0x212a,
          0x7ff, 0x800, 0xd7ff, 0xe000, 0xfffe, 0xffff]
@@ -338,6 +339,11 @@ def gen_sequence(r, nops):
             lines.append("u16 %d %s" % (d, hx(hexu(u))))
     for _ in range(3):
         source()
+    # short strings (patterns / fillers / replacement texts with `$` selectors)
+    for _ in range(2):
+        d = fresh()
+        u = [r.choice([0x61, 0x62, 0x24, 0x26, 0x60, 0x27, 0x31, 0x3c, 0xe9, 0x3a3, 0xd800, 0xdc00, 0xffff]) for _ in range(r.choice([0, 1, 1, 2, 3, 6]))]
+        lines.append("u16 %d %s" % (d, hx(hexu(u))))
     for _ in range(nops):
         k = r.random()
         reg = lambda: r.randrange(nreg)
@@ -356,9 +362,39 @@ def gen_sequence(r, nops):
         elif k < 0.56:
             a = reg()
             lines.append("raw %d %d" % (fresh(), a))
-        elif k < 0.70:
+        elif k < 0.66:
+            # String built-ins called with register values (mechanism models of Builtins.lean)
+            a, b, c = reg(), reg(), reg()
+            ii = lambda: r.choice([-20, -3, -2, -1, 0, 0, 1, 1, 2, 3, 5, 8, 17, 18, 40])
+            jj = lambda: r.choice(["u", "u"] + [str(x) for x in (-20, -3, -1, 0, 1, 2, 3, 5, 8, 17, 18, 40)])
+            op = r.choice(["slice", "slice", "substring", "substr", "at", "charAt", "padStart", "padEnd", "padStart", "repeat",
+                           "replace", "replaceAll", "replace", "replaceAll", "fcc", "fcp", "concat", "splitjoin", "splitjoin", "splitpiece", "splitpiece"])
+            if op in ("slice", "substring", "substr"):
+                lines.append("bi %d %s %d %d %s" % (fresh(), op, a, ii(), jj()))
+            elif op in ("at", "charAt"):
+                lines.append("bi %d %s %d %d" % (fresh(), op, a, ii()))
+            elif op in ("padStart", "padEnd"):
+                lines.append("bi %d %s %d %d %d" % (fresh(), op, a, b, r.choice([0, 1, 2, 3, 5, 8, 17, 19, 25, 40])))
+            elif op == "repeat":
+                lines.append("bi %d repeat %d %d" % (fresh(), a, r.choice([0, 1, 2, 3])))
+            elif op in ("replace", "replaceAll"):
+                # patterns that occur: a short piece of the subject's source when known
+                lines.append("bi %d %s %d %d %d" % (fresh(), op, a, b, c))
+            elif op == "splitjoin":
+                lines.append("bi %d splitjoin %d %d %d" % (fresh(), a, b, c))
+            elif op == "splitpiece":
+                lines.append("bi %d splitpiece %d %d %d" % (fresh(), a, b, r.choice([0, 0, 1, 1, 2, 3, 7])))
+            elif op == "fcc":
+                lines.append("bi %d fcc %s" % (fresh(), hx(hexu(gen_units(r)))))
+            elif op == "fcp":
+                lines.append("bi %d fcp %s" % (fresh(), hx(hexu(gen_units(r)))))
+            else:
+                n = r.randint(1, 3)
+                args = [reg() for _ in range(n)]
+                lines.append("bi %d concat %s" % (fresh(), " ".join(map(str, args))))
+        elif k < 0.76:
             lines.append("%s %d %d" % (r.choice(["seq", "seq", "same", "heq", "cmp"]), reg(), reg()))
-        elif k < 0.75:
+        elif k < 0.80:
             lines.append("%s %d" % (r.choice(["len", "dump"]), reg()))
         else:
             # a builder episode
